@@ -126,8 +126,10 @@ def cell_card(c, deck):
     else:
         parts.append('%d %s' % (c['mat'], c['rhotxt'] or '-1.0'))
     parts.append(render_geom(c['geom']))
-    if c['u']:
-        parts.append('u=%d' % c['u'])
+    paramcards = bool(deck.get('paramcards'))     # U and FILL given on data cards (one entry per cell) instead
+    if c['u'] and not paramcards:
+        # U=-n: MCNP's "not truncated by the container" hint; the cell is in universe n all the same
+        parts.append('u=%d' % (-c['u'] if c.get('negu') else c['u']))
     if c['lat']:
         parts.append('lat=%d' % c['lat'])
     if c['lat'] and c['lranges'] and not c.get('latopt'):
@@ -138,7 +140,7 @@ def cell_card(c, deck):
             if c['ftrspell'].startswith('star'):
                 fill = '*' + fill
         parts.append(fill)
-    elif c['fill']:
+    elif c['fill'] and not paramcards:
         fill = 'fill=%d' % c['fill']
         if c['hasftr']:
             fill += ' ' + _tr_inline(c['ftr'], c['ftrspell'], deck)
@@ -241,6 +243,9 @@ def _concretise(deck, title):
         lines.append(wrap_card('m%d %s' % (m['n'], ' '.join(m['tokens']))))
     for mnum in sorted(mats - given):
         lines.append('m%d 13027 1.0' % mnum)
+    if deck.get('paramcards'):
+        lines.append(wrap_card('u ' + ' '.join(str(c['u']) for c in deck['cells'])))
+        lines.append(wrap_card('fill ' + ' '.join(str(c['fill']) for c in deck['cells'])))
     for card in deck.get('impcards', []):
         lines.append(wrap_card('imp:%s %s' % (card['par'], ' '.join(card['tokens']))))
     for extra in deck.get('extra_data', []):
